@@ -154,7 +154,9 @@ def smt_name(name: str) -> str:
 class Encoder:
     """sympy -> z3. One encoder per verification condition (side axioms are collected)."""
 
-    def __init__(self):
+    def __init__(self, ack: bool = True):
+        self.ack = ack                # Ackermann reduction: applications become constants + congruence
+        self.apps: dict = {}          # function name -> list of (arg terms, constant)
         self.side: list = []          # axioms about sqrt / pow / transcendental instances
         self.dens: list = []          # z3 terms assumed non-zero
         self._den_keys: set = set()
@@ -166,10 +168,53 @@ class Encoder:
 
     # ---- helpers
     def _fn(self, name: str, arity: int):
+        """Applicable object for an uninterpreted real function."""
         key = (name, arity)
         if key not in self._funcs:
-            self._funcs[key] = z3.Function(name, *([z3.RealSort()] * (arity + 1)))
+            if self.ack:
+                def apply(*args, _name=name):
+                    k = (_name, tuple(a.sexpr() for a in args))
+                    if k not in self._cache:
+                        c = z3.Real(smt_name(f"app.{_name}.{len(self.apps.setdefault(_name, []))}"))
+                        self.apps[_name].append((args, c))
+                        self._cache[k] = c
+                    return self._cache[k]
+                self._funcs[key] = apply
+            else:
+                self._funcs[key] = z3.Function(name, *([z3.RealSort()] * (arity + 1)))
         return self._funcs[key]
+
+    def congruence(self) -> list:
+        """Ackermann congruence constraints: equal arguments => equal values."""
+        out = []
+        for name, lst in self.apps.items():
+            for i in range(len(lst)):
+                for j in range(i + 1, len(lst)):
+                    (a1, c1), (a2, c2) = lst[i], lst[j]
+                    if len(a1) != len(a2):
+                        continue
+                    out.append(z3.Implies(z3.And(*[x == y for x, y in zip(a1, a2)]), c1 == c2))
+        return out
+
+    def index_constants(self) -> list:
+        """Ackermann constants that occur inside the argument list of another application
+        (index-like values: fixing them makes the rest of the query low-degree)."""
+        names = {str(c) for lst in self.apps.values() for _, c in lst}
+        out = set()
+        for lst in self.apps.values():
+            for args, _ in lst:
+                for a in args:
+                    stack = [a]
+                    while stack:
+                        t = stack.pop()
+                        if z3.is_const(t) and str(t) in names:
+                            out.add(str(t))
+                        stack.extend(t.children())
+        return sorted(out)
+
+    def app_names(self) -> dict:
+        """constant name -> readable application, for models"""
+        return {str(c): f"{name}({', '.join(str(a) for a in args)})" for name, lst in self.apps.items() for args, c in lst}
 
     def _single(self, e):
         """One z3 term for a sympy real term (uses z3 division only when unavoidable)."""
@@ -457,6 +502,8 @@ class Encoder:
         if b is sp.false:
             return z3.BoolVal(False)
         if isinstance(b, sp.Symbol):
+            if not b.name.startswith("?"):
+                raise EncodeError(f"real symbol {b} used as a boolean")
             return z3.Bool(smt_name(b.name))
         if isinstance(b, sp.And):
             return z3.And(*[self.boolean(a) for a in b.args])
